@@ -428,6 +428,7 @@ def unit_select(n, B):
       "tile model: wp.tile gathers one value per thread of the block, wp.tile_argmin returns the lowest index among the minima (Warp's tracker replaces the champion only when strictly smaller)",
       "per-geom intersection functions (ray_geom / ray_mesh / ray_hfield) are free symbols: -1 (miss) or a distance in [0, mjMAXVAL)",
       "array accesses of every thread of the block in bounds (C17 decides bounds)",
+      "launch shapes as asserted by rays(): pnt / vec (1 or nworld, nray), bodyexclude (nray), outputs (nworld, nray); Model arrays hold ngeom entries",
     )
     w, r = z3.Int("worldid"), z3.Int("rayid")
     cells = {}
@@ -476,6 +477,12 @@ def unit_select(n, B):
       if isinstance(v, core.ArrRef) and v.cell.uid not in seen:
         seen.add(v.cell.uid)
         bg += [z3.And(s >= 0, s <= 6) for s in v.cell.shape if is_sym(s)]
+    # launch preconditions asserted by rays(): shapes of the per-ray / per-world arrays; Model arrays hold ngeom entries
+    nray, nworld = shp("pnt", 1), shp("dist_out", 0)
+    bg += [r < nray, w < nworld, shp("vec", 1) == nray, shp("vec", 0) == shp("pnt", 0), shp("pnt", 0) >= 1, shp("bodyexclude", 0) == nray]
+    bg += [shp(l, 0) == nworld for l in ("geomid_out", "normal_out", "geom_xpos_in", "geom_xmat_in")] + [shp(l, 1) == nray for l in ("dist_out", "geomid_out", "normal_out")]
+    bg += [shp(l, 0) >= n for l in ("geom_type", "geom_bodyid", "geom_group")] + [shp(l, 1) >= n for l in ("geom_matid", "geom_size", "geom_rgba", "geom_xpos_in", "geom_xmat_in", "geom_dataid")]
+    bg += [shp(l, 0) >= 1 for l in ("geom_matid", "geom_size", "geom_rgba", "mat_rgba", "geom_dataid")]
     Dk = {kd: [z3.Real(f"D{kd}_{g}") for g in range(n)] for kd in "pmh"}
     Nk = {kd: [[z3.Real(f"N{kd}_{g}_{i}") for i in range(3)] for g in range(n)] for kd in "pmh"}
     for kd in "pmh":
@@ -576,6 +583,202 @@ def unit_select(n, B):
   return (f"select/ngeom{n}/block{B}", run)
 
 
+# ------------------------------------------------------------------------------------------------ dispatch (ray_geom)
+
+
+PRIMS = {"ray_plane": 0, "ray_sphere": 2, "ray_capsule": 3, "ray_ellipsoid": 4, "ray_cylinder": 5, "ray_box": 6}
+
+
+def goal_dispatch(spec, pre, post):
+  from checks import rayg_c34
+
+  gt = int(spec["args"]["geomtype"]["scalar"])
+  if gt in PRIMS.values():
+    spec = dict(spec, env=dict(spec.get("env") or {}, geomtype=gt))
+    return rayg_c34.goal_vs_mujoco(spec, pre, post)
+  dw, nw = float(post["dist_out"][0]), post["normal_out"][0]
+  return dw == -1.0 and not np.any(nw), f"ray_geom for non-primitive geom type {gt} returns ({dw}, {nw.tolist()}) instead of (-1, 0)"
+
+
+def unit_dispatch(ctx):
+  from checks import rayg_c34, wrap_c34
+  from mujoco_warp._src import ray
+
+  ctx.encode(ray.ray_geom)
+  ctx.bound(note="no loops; geom type symbolic; the six per-type functions are free symbols (their own units decide them)")
+  calls = {}
+
+  def summary(name):
+    def s(it, fr, args):
+      D = z3.Real(f"D_{name}")
+      N = [z3.Real(f"N_{name}_{i}") for i in range(3)]
+      calls[name] = {"guard": it.active(fr), "args": args}
+      if name == "ray_box":
+        return (D, Vec([z3.Real(f"all_{i}") for i in range(6)], (6,), "f"), Vec(N, (3,), "f"))
+      return (D, Vec(N, (3,), "f"))
+
+    return s
+
+  kt = lib.kernel_thread(wrap_c34.k_ray_geom, shapes={"dist_out": [1], "normal_out": [1]}, interp_kw={"summaries": {getattr(ray, nm).key: summary(nm) for nm in PRIMS}})
+  A = kt.args
+  gt = A["geomtype"]
+  sess = ctx.session(kt.bg)
+  ctx.reach(sess, "twin:reachable", gt == 6)
+  got_d, got_n = kt.post("dist_out", 0), [kt.post("normal_out", 0, k=i) for i in range(3)]
+  rp = lib.make_replay(ctx, kt, "checks.wrap_c34:k_ray_geom", "dispatch", "goal", goal="checks.c34:goal_dispatch")
+  names = {"geomtype": gt}
+  if set(calls) != set(PRIMS):
+    ctx.error(f"ray_geom calls {sorted(calls)} (expected the six primitive functions)")
+    return
+  for nm, tv in PRIMS.items():
+    c = calls[nm]
+    same = lambda u, v: And(*[cmp("==", x, y) for x, y in zip(u.c, v.c)])
+    if nm == "ray_sphere":
+      pos, dsq, pnt, vec = c["args"]
+      argok = And(same(pos, A["pos"]), cmp("==", dsq, arith("*", A["size"].c[0], A["size"].c[0])), same(pnt, A["pnt"]), same(vec, A["vec"]))
+    else:
+      pos, mat, size, pnt, vec = c["args"]
+      argok = And(same(pos, A["pos"]), same(mat, A["mat"]), same(size, A["size"]), same(pnt, A["pnt"]), same(vec, A["vec"]))
+    res = z3.And(got_d == z3.Real(f"D_{nm}"), *[got_n[i] == z3.Real(f"N_{nm}_{i}") for i in range(3)])
+    ctx.prove(sess, f"{nm}/result-forwarded", res, gt == tv, names=names, replay=rp, desc=f"ray_geom: geom type {tv} does not return the result of {nm}")
+    ctx.prove(sess, f"{nm}/called-iff-type", core.zbool(c["guard"]) == (gt == tv), names=names, replay=rp, desc=f"ray_geom: {nm} is not called exactly for geom type {tv}")
+    ctx.prove(sess, f"{nm}/arguments", argok, c["guard"], names=names, replay=rp, desc=f"ray_geom: {nm} is not called with (pos, mat, size, pnt, vec)" + (" / (pos, size[0]^2, pnt, vec)" if nm == "ray_sphere" else ""))
+  other = z3.And(*[gt != tv for tv in PRIMS.values()])
+  ctx.prove(sess, "other-types/miss", z3.And(got_d == -1, *[got_n[i] == 0 for i in range(3)]), other, names=names, replay=rp, desc="ray_geom: a non-primitive geom type does not return (-1, zero normal)")
+
+
+# ------------------------------------------------------------------------------------------------ rays / ray (host level)
+
+
+def _tiny_model(nworld=2):
+  import mujoco
+  import mujoco_warp as mjw
+
+  xml = """<mujoco><worldbody>
+    <geom type="sphere" size="0.3" pos="2 0 0" group="1"/>
+    <body pos="1 0.1 0"><freejoint/><geom type="box" size="0.2 0.3 0.1" group="2"/></body>
+    <body pos="3 0 0.1"><joint type="hinge"/><geom type="capsule" size="0.2 0.3" rgba="1 0 0 0.5"/></body>
+  </worldbody></mujoco>"""
+  m = mujoco.MjModel.from_xml_string(xml)
+  d = mujoco.MjData(m)
+  mujoco.mj_forward(m, d)
+  return m, d, mjw.put_model(m), mjw.put_data(m, d, nworld=nworld)
+
+
+def replay_rays_vs_ray(_model=None):
+  """public API on concrete inputs: column i of rays() must equal ray() on ray i alone"""
+  import warp as wp
+
+  import mujoco_warp as mjw
+  from mujoco_warp._src.types import vec6
+
+  mjm, mjd, m, d = _tiny_model(2)
+  rng = np.random.default_rng(5)
+  nray = 4
+  P = rng.uniform(-0.3, 0.3, (2, nray, 3)).astype(np.float32)
+  V = (np.array([1.0, 0, 0]) + rng.uniform(-0.2, 0.2, (2, nray, 3))).astype(np.float32)
+  be = np.array([-1, 1, 2, 0], dtype=np.int32)
+  gg = vec6(1, 1, 1, 0, 0, 0)
+  dist, gid, nrm = wp.zeros((2, nray), dtype=float), wp.zeros((2, nray), dtype=int), wp.zeros((2, nray), dtype=wp.vec3)
+  mjw.rays(m, d, wp.array(P, dtype=wp.vec3), wp.array(V, dtype=wp.vec3), gg, True, wp.array(be, dtype=int), dist, gid, nrm)
+  msgs = []
+  for i in range(nray):
+    d1, g1, n1 = mjw.ray(m, d, wp.array(P[:, i : i + 1], dtype=wp.vec3), wp.array(V[:, i : i + 1], dtype=wp.vec3), gg, True, int(be[i]))
+    if not (np.allclose(d1.numpy()[:, 0], dist.numpy()[:, i]) and np.array_equal(g1.numpy()[:, 0], gid.numpy()[:, i]) and np.allclose(n1.numpy()[:, 0], nrm.numpy()[:, i])):
+      msgs.append(f"ray {i}: rays() gives (dist {dist.numpy()[:, i].tolist()}, geom {gid.numpy()[:, i].tolist()}), ray() on that ray alone gives ({d1.numpy()[:, 0].tolist()}, {g1.numpy()[:, 0].tolist()})")
+  return bool(msgs), "; ".join(msgs[:3]) or "rays() columns equal ray() results on this scene"
+
+
+def unit_rays(ctx):
+  """ray i of rays()  ==  ray() on ray i alone: both REAL host functions are run natively with wp.launch_tiled interpreted
+  (every thread block of _ray in lockstep, block_dim 1 as on the CPU device), symbolic ray origins / directions / excluded
+  bodies / poses / group mask / static flag, the per-geom intersection an uninterpreted function of its arguments"""
+  import warp as wp
+
+  from mujoco_warp._src import ray
+  from wsym import host
+
+  ctx.encode(ray.rays, ray.ray, ray._ray, ray._ray_geom_mesh, ray._ray_eliminate)
+  NW, NR = 2, 2
+  ctx.bound(nworld=NW, nray=NR, ngeom=3, block_dim=1, note="concrete 3-geom Model (sphere, box, capsule); Data poses, rays, excluded bodies, mask, static flag symbolic")
+  ctx.assume("per-geom intersection functions are uninterpreted functions of (pos, mat, size, pnt, vec, type)", "tile model as in unit select")
+  mjm, mjd, m, d = _tiny_model(NW)
+  d2 = host.shim_dataclass(d, "d.", symbolic=lambda name: name in ("d.geom_xpos", "d.geom_xmat"))
+  RS, IS = z3.RealSort(), z3.IntSort()
+  FD = z3.Function("ray_geom_dist", *([RS] * 21 + [IS, RS]))
+  FN = [z3.Function(f"ray_geom_normal{i}", *([RS] * 21 + [IS, RS])) for i in range(3)]
+
+  def s_geom(it, fr, args):
+    flat = []
+    for a in args[:5]:
+      flat += [core.to_z3(c, "real") for c in a.c]
+    flat.append(core.to_z3(args[5], "int"))
+    return (FD(*flat), Vec([f(*flat) for f in FN], (3,), "f"))
+
+  def s_other(it, fr, args):
+    raise core.Unsupported("mesh / hfield ray in the rays unit")
+
+  summ = {ray.ray_geom.key: s_geom, ray.ray_mesh.key: s_other, ray.ray_hfield.key: s_other}
+  assumes = []
+
+  def run(fn):
+    with host.HostRun(mode="exec") as hr:
+
+      def launch_tiled(kernel, dim, inputs=(), outputs=(), block_dim=None, **kw):
+        args = list(inputs) + list(outputs or ())
+        specs = [(a.label, a.type) for a in kernel.adj.args]
+        vals = [hr.to_arg(a, t) for a, (l, t) in zip(args, specs)]
+        hr.events.append(host.Event("launch_tiled", kernel, tuple(dim), None, None, {"block_dim": block_dim}))
+        import itertools
+
+        for tid in itertools.product(*[range(int(n)) for n in dim]):
+          rec = TileInterp(1, "record", summaries=summ, unroll=4, tid=tid + (0,), track_access=False)
+          snap = [(v.cell, v.cell.snapshot()) for v in vals if isinstance(v, core.ArrRef)]
+          rec.call_pyfunc(kernel.func, vals, name=kernel.key)
+          for c, sn in snap:
+            c.restore(sn)
+          it = TileInterp(1, "block", rec=[rec.tiles], summaries=summ, unroll=4, tid=tid + (0,), track_access=False)
+          it.call_pyfunc(kernel.func, vals, name=kernel.key)
+          assumes.extend(it.assumes)
+
+      wp.launch_tiled = launch_tiled
+      out = fn()
+    return out, hr
+
+  def symarr(name, shape, dtype):
+    return host.sym_array(name, shape, dtype)
+
+  pnt, vec = symarr("pnt", (NW, NR), wp.vec3), symarr("vec", (NW, NR), wp.vec3)
+  be = symarr("bodyexclude", (NR,), int)
+  gg = Vec([z3.Real(f"geomgroup_{i}") for i in range(6)], (6,), "f")
+  fs = z3.Bool("flg_static")
+  dist, gid, nrm = symarr("dist", (NW, NR), float), symarr("geomid", (NW, NR), int), symarr("normal", (NW, NR), wp.vec3)
+  _, hr = run(lambda: ray.rays(m, d2, pnt, vec, gg, fs, be, dist, gid, nrm))
+  ev = [e for e in hr.events if e.kind == "launch_tiled"]
+  if len(ev) != 1 or ev[0].kernel is not ray._ray or ev[0].dim != (NW, NR):
+    ctx.error(f"rays() launches {[(e.kernel.key, e.dim) for e in ev]} (expected one tiled launch of _ray over (nworld, nray))")
+    return
+  if ev[0].info["block_dim"] != m.block_dim.ray:
+    ctx.violation("rays/block-dim", f"rays() launches _ray with block_dim {ev[0].info['block_dim']} instead of m.block_dim.ray", "(host trace)")
+  sess = ctx.session([core.zbool(a) for a in assumes])
+  ctx.reach(sess, "twin:reachable", True)
+  cd, cg, cn = dist.ref.cell, gid.ref.cell, nrm.ref.cell
+  for i in range(NR):
+    p1, v1 = symarr(f"pnt{i}", (NW, 1), wp.vec3), symarr(f"vec{i}", (NW, 1), wp.vec3)
+    for src, dst in ((pnt, p1), (vec, v1)):
+      for k in range(3):
+        dst.ref.cell.d[k] = [src.ref.cell.d[k][src.ref.cell.flat((w, i))] for w in range(NW)]
+    (d1, g1, n1), hr1 = run(lambda: ray.ray(m, d2, p1, v1, gg, fs, be.ref.cell.d[0][i]))
+    sess1 = ctx.session([core.zbool(a) for a in assumes])
+    for w in range(NW):
+      same = z3.And(
+        core.to_z3(cd.d[0][cd.flat((w, i))], "real") == core.to_z3(d1.ref.cell.d[0][w], "real"),
+        core.to_z3(cg.d[0][cg.flat((w, i))], "int") == core.to_z3(g1.ref.cell.d[0][w], "int"),
+        *[core.to_z3(cn.d[k][cn.flat((w, i))], "real") == core.to_z3(n1.ref.cell.d[k][w], "real") for k in range(3)],
+      )
+      ctx.prove(sess1, f"ray{i}/world{w}/rays-equals-ray", same, names={}, replay=replay_rays_vs_ray, desc=f"rays(): result of ray {i} in world {w} differs from ray() cast for that ray alone (index discipline of pnt / vec / bodyexclude / outputs)")
+
+
 # ------------------------------------------------------------------------------------------------ main
 
 
@@ -587,6 +790,7 @@ def all_units(tier):
   if tier == "thorough":
     combos += [(1, 2), (1, 4), (2, 4), (4, 1), (4, 2), (4, 4), (5, 2)]
   units += [unit_select(n, B) for n, B in combos]
+  units += [("dispatch", unit_dispatch), ("rays-equals-ray", unit_rays)]
   units += rayg_c34.units(tier)
   return units
 
